@@ -296,7 +296,8 @@ pub fn check_pairs<R: RuleType>(f: &[Node], p: &Pairs<'_, R>, input: &str, o: &m
                     errs.push(format!("peek after {} steps gives {pk:?}", lo + k - hi));
                 }
             }
-            if it.next().is_some() || it.next_back().is_some() {
+            // each end is probed on its own copy: probing one end must not be what "repairs" the other
+            if it.clone().next_back().is_some() || it.clone().next().is_some() || it.next().is_some() || it.next_back().is_some() {
                 errs.push("exhausted Pairs still yields".into());
             }
             errs
@@ -344,7 +345,7 @@ pub fn check_pairs<R: RuleType>(f: &[Node], p: &Pairs<'_, R>, input: &str, o: &m
                     errs.push(format!("flatten: after {} steps len {} size_hint {:?}, {} pairs left", lo + pre.len() - hi, it.len(), it.size_hint(), left));
                 }
             }
-            if it.next().is_some() || it.next_back().is_some() {
+            if it.clone().next_back().is_some() || it.clone().next().is_some() || it.next().is_some() || it.next_back().is_some() {
                 errs.push("exhausted FlatPairs still yields".into());
             }
             errs
@@ -409,7 +410,7 @@ pub fn check_pairs<R: RuleType>(f: &[Node], p: &Pairs<'_, R>, input: &str, o: &m
                     errs.push(format!("tokens: len {} with {} left", it.len(), hi - lo));
                 }
             }
-            if it.next().is_some() || it.next_back().is_some() {
+            if it.clone().next_back().is_some() || it.clone().next().is_some() || it.next().is_some() || it.next_back().is_some() {
                 errs.push("exhausted Tokens still yields".into());
             }
             errs
